@@ -51,9 +51,15 @@ def mat(v, B=None):
             if t == "date":
                 return dt.date.fromisoformat(v["v"])
             if t == "datetime":
-                return pd.Timestamp(v["v"], tz=v.get("tz")).to_pydatetime()
+                ts = pd.Timestamp(v["v"], tz=v.get("tz"))
+                if v.get("conv"):
+                    ts = ts.tz_convert(v["conv"])
+                return ts.to_pydatetime()
             if t == "ts":
-                return pd.Timestamp(v["v"], tz=v.get("tz"))
+                ts = pd.Timestamp(v["v"], tz=v.get("tz"))
+                if v.get("conv"):
+                    ts = ts.tz_convert(v["conv"])   # instant stored as UTC, handed over in zone 'conv' (DST-safe)
+                return ts
             if t == "nd":
                 return np.array(v["v"], dtype=float)
             if t == "nd_int":
@@ -229,6 +235,7 @@ class Env:
         # one representation for all asset windows of a world (EAO compares them with each other)
         self.window_kind = rng.choice(["date", "datetime", "ts"]) if self.param_tz is None else rng.choice(["datetime", "ts"])
         self.min_span = None
+        self.allow_date_only_zone = False
 
     def new_id(self, prefix):
         n = self.counter.get(prefix, 0)
@@ -276,6 +283,20 @@ def gen_grid(env, gid=None, freq=None, T=None, tz="env", start_shift=True, mtu=N
     g = {"start": env.tag_date(start, tz=(tz if aware else None)),
          "end": env.tag_date(end, tz=(tz if aware else None)),
          "freq": freq, "mtu": mtu, "tz": tz}
+    if tz is not None and env.allow_date_only_zone and rng.random() < 0.2:
+        # zone-aware only through its dates: Timegrid(aware, aware) without a timezone argument.  Start may sit in
+        # the repeated / skipped DST hour, so the instants are stored as UTC and converted when materialised
+        s_i = pd.Timestamp(start, tz=tz).tz_convert("UTC") if start.hour % 6 == 0 else None
+        shift = pd.Timedelta(hours=rng.choice([0, 0, 1, 2, 3])) if freq in ("h", "15min") else pd.Timedelta(0)
+        s_utc = (pd.Timestamp(start, tz=tz).tz_convert("UTC") + shift)
+        e_utc = (pd.Timestamp(end, tz=tz).tz_convert("UTC") + shift)
+        kind = rng.choice(["ts", "datetime"])
+        g = {"start": {"$t": kind, "v": iso(s_utc.tz_localize(None)), "tz": "UTC", "conv": tz},
+             "end": {"$t": kind, "v": iso(e_utc.tz_localize(None)), "tz": "UTC", "conv": tz},
+             "freq": freq, "mtu": mtu, "tz": None, "date_zone": tz}
+        env.param_tz = tz           # such a grid only accepts zone-aware interval data and windows
+        if env.window_kind == "date":
+            env.window_kind = "ts"
     gid = gid or env.new_id("g")
     env.world["grids"][gid] = g
     env.U0 = min(env.U0, start)
@@ -589,10 +610,11 @@ def common_kw(env, name, wacc=True, window=True, p_window_none=0.6):
     return kw
 
 
-def coarse_freq(env, grid_freq, kw=None, p=0.2):
+def coarse_freq(env, grid_freq, kw=None, p=None):
     """Coarser asset frequency; only valid (in EAO) for assets with one variable per step, without
     an own window, on grids at least two coarse steps long."""
     rng = env.rng
+    p = getattr(env, "coarse_p", 0.2) if p is None else p
     if rng.random() >= p:
         return None
     if kw is not None and ("start" in kw or "end" in kw):
@@ -800,12 +822,16 @@ def gen_chp(env, nodes, grid_freq="h", cls=None, need_bool=False):
     rng = env.rng
     cls = cls or rng.choice(["CHPAsset", "CHPAsset", "Plant", "CHPAsset_with_min_load_costs"])
     kw = common_kw(env, asset_name(env), p_window_none=(1.0 if cls == "CHPAsset_with_min_load_costs" else 0.8))
-    if cls == "Plant":
-        nn = nodes[:1] + (nodes[2:3] if len(nodes) > 2 and rng.random() < 0.5 else [])
+    no_heat = cls == "Plant"
+    if cls != "Plant" and not need_bool and rng.random() < 0.2:
+        no_heat = True            # documented constructor switch: a CHP class used as plain power plant
+        kw["_no_heat"] = True
+    if no_heat:
+        nn = nodes[:1] + (nodes[-1:] if len(nodes) > 1 and rng.random() < 0.5 else [])
     else:
         nn = nodes[:2] + (nodes[2:3] if len(nodes) > 2 and rng.random() < 0.5 else [])
     kw["nodes"] = [{"$node": n} for n in nn]
-    has_fuel = (cls == "Plant" and len(nn) == 2) or (cls != "Plant" and len(nn) == 3)
+    has_fuel = (no_heat and len(nn) == 2) or (not no_heat and len(nn) == 3)
     mx = round(rng.uniform(5, 20), 1)
     mn = rng.choice([0., 0., round(mx * 0.3, 1), round(mx * 0.5, 1)])
     if need_bool and mn == 0.:
@@ -817,7 +843,7 @@ def gen_chp(env, nodes, grid_freq="h", cls=None, need_bool=False):
     kw["extra_costs"] = gen_vec(env, 1., 30., "ec", str_key="ec", p_scalar=0.7)
     if rng.random() < 0.5:
         kw["price"] = rng.choice(PRICE_KEYS)
-    if cls != "Plant":
+    if not no_heat:
         if rng.random() < 0.6:
             kw["conversion_factor_power_heat"] = gen_vec(env, 0.2, 0.9, "cf", p_scalar=0.8)
         if rng.random() < 0.6:
@@ -943,6 +969,29 @@ def gen_linked(env, n_power, n_heat, grid_freq="h"):
           "asset2_variable": [{"$asset": a1}, "bool_on", None],
           "time_back": rng.choice([0, 1, 2]), "time_forward": rng.choice([0, 0, 1])}
     return add_asset(env, "LinkedAsset", kw), pid
+
+
+def clone_asset(env, aid):
+    """A near-duplicate of an existing (non-wrapper) asset: same class, nodes, window, frequency and parameter
+    objects (shared dict references stay shared), new name, ONE thing changed.  Stresses anything that is
+    cached or keyed too coarsely (by window, by frequency, by id of a parameter object, by grid length)."""
+    rng = env.rng
+    src = env.world["assets"][aid]
+    if src["cls"] in ("StructuredAsset", "LinkedAsset", "ScaledAsset"):
+        return None
+    kw = copy.deepcopy(src["kw"])
+    kw["name"] = asset_name(env)
+    what = rng.choice(["wacc", "wacc", "wacc", "price", "extra_costs", "window", "nothing"])
+    if what == "wacc":
+        kw["wacc"] = rng.choice([w for w in (0, 0.05, 0.1, 0.2) if w != kw.get("wacc", 0)])
+    elif what == "price" and "price" in kw:
+        kw["price"] = rng.choice([k for k in PRICE_KEYS if k != kw["price"]])
+    elif what == "extra_costs" and src["cls"] in ("SimpleContract", "Contract", "MultiCommodityContract"):
+        kw["extra_costs"] = round(rng.uniform(0.1, 3), 2) if "freq" not in kw else kw.get("extra_costs", 0)
+    elif what == "window" and src["cls"] != "OrderBook" and "freq" not in kw:
+        kw.pop("start", None)
+        kw.pop("end", None)
+    return add_asset(env, src["cls"], kw)
 
 
 def referenced_ids(world, oid, acc=None):
